@@ -141,7 +141,7 @@ def run(ctx):
         try:
             fitter = gen.make_fitter(filt, theta, md, law, (0.5, 12.0), dr, use_memmap=False)
         except Exception as exc:
-            ctx.violation('setup:fitter-raised', 'Fitter() raised: %r' % (exc,), dict(multi=multi, theta=theta))
+            ctx.raised(exc, 'setup:fitter-raised', 'Fitter() raised: %r' % (exc,), dict(multi=multi, theta=theta))
             ctx.rmdir(d)
             continue
         # source planted so that fits have distinct A_V >= 0.5 and (3-D) distinct distances
@@ -173,7 +173,7 @@ def run(ctx):
             fit(data, filt, theta * u.arcsec, md, out, n_data_min=1, extinction_law=law, av_range=(0.5, 12.0),
                 distance_range=dr * u.kpc, output_format=('A', 0), output_convolved=True)
         except Exception as exc:
-            ctx.violation('setup:fit-raised', 'fit() raised: %r' % (exc,), dict(multi=multi))
+            ctx.raised(exc, 'setup:fit-raised', 'fit() raised: %r' % (exc,), dict(multi=multi))
             ctx.rmdir(d)
             continue
         try:
@@ -181,7 +181,7 @@ def run(ctx):
             file_recs = {str(r_.source.name): r_ for r_ in fin_}
             fin_.close()
         except Exception as exc:
-            ctx.violation('setup:fit-file-unreadable', 'the fit file cannot be read back: %r' % (exc,), dict(multi=multi))
+            ctx.raised(exc, 'setup:fit-file-unreadable', 'the fit file cannot be read back: %r' % (exc,), dict(multi=multi))
             ctx.rmdir(d)
             continue
         for mode in MODES:
@@ -199,7 +199,7 @@ def run(ctx):
                     figs = plot(inp, output_dir=None, sed_type=mode, select_format=sel)
                     plt.close('all')
                 except Exception as exc:
-                    ctx.violation('plot:raised:%s:%s' % (mode, type(exc).__name__), 'plot() raised: %r' % (exc,), wit)
+                    ctx.raised(exc, 'plot:raised:%s:%s' % (mode, type(exc).__name__), 'plot() raised: %r' % (exc,), wit)
                     continue
                 ctx.event('plot:call')
                 ctx.case(('plot', ip, mode, form, nsel, ctx.shard), nontrivial=nsel >= 2 or multi, sample=wit if ip == 0 and mode == 'all' else None)
